@@ -88,6 +88,7 @@ fn main() {
         "weakfilter" => run_engine(engines::weakfilter::WeakFilterEngine::new(), mode, rest),
         "registration" => run_engine(engines::registration::RegistrationEngine::new(), mode, rest),
         "linkcc" => run_engine(engines::linkcc::LinkCcEngine::new(), mode, rest),
+        "shellsim" => run_engine(engines::shellsim::ShellSim::new(), mode, rest),
         _ => {
             eprintln!("unknown engine {engine}");
             std::process::exit(2)
